@@ -648,7 +648,13 @@ def main(chk: Check):
     for b in prop_bad[:5]:
         small = b
         try:
-            small = dict(b, input=_shrink_failure(b))
+            scn = _shrink_failure(b)
+            w = World(scn)
+            r = w.resolve()
+            small = dict(b, input=scn)
+            if not isinstance(r, Err) and r[0] == "ok":
+                small["ops"] = r[1]
+                small["failed"] = [f for f in py_check(w, r[1]) if classify(w, r[1], f) is None][:4]
         except Exception:  # noqa: BLE001
             pass
         chk.violation("property", small)
